@@ -159,13 +159,16 @@ Section Render.
   Qed.
 
   (* ---- loops ---- *)
-  Lemma header_loop_skip n h rest : h <> [] -> starts_sp h = false ->
+  Lemma header_loop_skip n h rest : ctrim h <> [] -> starts_sp h = false ->
     header_loop (repeat [] n ++ h :: rest) = ROk (lf h) rest.
   Proof.
     intros NE S. induction n as [|n IH]; cbn [repeat app header_loop].
-    - destruct (str_eqb_spec h []); [contradiction|]. now rewrite S.
+    - destruct (str_eqb_spec (ctrim h) []); [contradiction|]. now rewrite S.
     - exact IH.
   Qed.
+  (* a line whose first character is no white space is not a separator line *)
+  Lemma ctrim_head_ne c r : cut c = false -> ctrim (c :: r) <> [].
+  Proof. intros Hc E. apply ctrim_nil in E. cbn in E. rewrite Hc in E. discriminate. Qed.
 
   Lemma body_loop_lines : forall bl acc tr rest, Forall body_line_ok bl ->
     starts_sp tr = true -> is_prefix (s " -- ") tr = true ->
@@ -194,8 +197,9 @@ Section Render.
     intros (Sc&Ss&Sl&Vc&Vs&Vr&Vp&Tc&Ts&An&Aw&Bw&Wc&Ws&Dc&Dp).
     unfold CL.parse_one, elines. rewrite <- app_assoc. cbn [app].
     destruct (clean_not_sp _ Sc) as [S0 S1].
-    assert (Hh : header_line e <> [] /\ starts_sp (header_line e) = false).
-    { unfold header_line, hA. destruct (r_source e) as [|c r]; [congruence|]. split; [discriminate|exact S0]. }
+    assert (Hh : ctrim (header_line e) <> [] /\ starts_sp (header_line e) = false).
+    { destruct Sc as (_&Scl&_). unfold header_line, hA. destruct (r_source e) as [|c r]; [congruence|]. split; [|exact S0].
+      cbn [app]. apply ctrim_head_ne. exact Scl. }
     destruct Hh as [Hne Hsp]. rewrite (header_loop_skip _ _ _ Hne Hsp).
     (* header *)
     assert (FA : free semi (hA e)).
